@@ -23,7 +23,7 @@ ASSUMPTIONS = ["coordinates are dyadic rationals for which binary64 arithmetic i
 MOVE_HDR = '''from typing import Any
 from bloqade.geometry.dialects import grid
 from kirin.dialects import ilist
-from bloqade.shuttle import action, spec, schedule
+from bloqade.shuttle import action, filled, spec, schedule
 from bloqade.shuttle.prelude import tweezer, move
 
 '''
